@@ -172,6 +172,8 @@ type ScriptPub struct {
 	rec  *Rec
 	h    int
 	Fail bool
+	// CloseErr: Close reports an error (after doing its work)
+	CloseErr bool
 }
 
 func (p *ScriptPub) Publish(topic string, msgs ...*message.Message) error {
@@ -184,6 +186,9 @@ func (p *ScriptPub) Publish(topic string, msgs ...*message.Message) error {
 
 func (p *ScriptPub) Close() error {
 	p.rec.Log("pc", itoa(p.h))
+	if p.CloseErr {
+		return errors.New("scripted publisher: connection already closed")
+	}
 	return nil
 }
 
